@@ -337,3 +337,79 @@ def rule_count_propagation(ctx):
         else:
             ctx.holds("COUNT", key, f.where(), "every count returned by a callee (%d call sites) reaches this function's return value" % len(calls))
     ctx.floor("COUNT", 6, n, "(hdiff functions consuming difference counts)")
+
+
+# ---------------------------------------------------------------------------------------
+# PAIR: a loop that walks the items of object X by index is bounded by the count that was asked of X
+
+def rule_index_count_pairing(ctx):
+    """The inspection tools enumerate attributes, datasets, images ... with `for (i = 0; i < n; i++) api(obj, i, ...)`,
+    where n was filled in by a query call `q(obj, .., &n, ..)`.  If the loop bound was obtained from a *different* object than
+    the one indexed in the body, items are skipped or indices past the end are used: the report no longer shows what is in
+    the file.  Instance = such a loop; decided when the bound variable has exactly one defining query call in the function."""
+    from .codec import ast_walk
+    prog = ctx.prog
+    n = 0
+    for f in prog.funcs:
+        if not any(f.rel.startswith(d) for d in TOOL_DIRS) and "hrepack" not in f.rel:
+            continue
+        # out-parameter definitions: var -> [(query call, object argument text)]
+        outdefs = {}
+        for _b, _i, _s, c in f.calls():
+            if not c[1] or not c[3]:
+                continue
+            obj = strip(c[3][0])
+            if kind(obj) != "var":
+                continue
+            for a in c[3][1:]:
+                a = strip(a)
+                if kind(a) == "addr" and kind(strip(a[1])) == "var":
+                    outdefs.setdefault(strip(a[1])[1], []).append((c, obj[1]))
+        assigned = {}
+        for _b, _i, _s, x in f.nodes(True):
+            if x[0] == "asg" and kind(strip(x[2])) == "var":
+                assigned.setdefault(strip(x[2])[1], []).append(x)
+        loops = []
+
+        def vis(node, stack):
+            if node[0] == "for":
+                loops.append(node)
+            return True
+        ast_walk(f.raw.get("ast"), vis)
+        for lp in loops:
+            cond = strip(lp[2]) if lp[2] else None
+            if cond is None or kind(cond) != "bin" or cond[1] not in ("<", "<="):
+                continue
+            iv, bv = strip(cond[2]), strip(cond[3])
+            if kind(iv) != "var" or kind(bv) != "var":
+                continue
+            defs = outdefs.get(bv[1], [])
+            if len(defs) != 1 or bv[1] in assigned:
+                continue
+            qcall, qobj = defs[0]
+            # calls in the body that take (object, loop index, ...)
+            uses = []
+
+            def vis2(node, stack):
+                if node[0] == "s":
+                    for c in calls_in(node[1]):
+                        if c[1] and len(c[3]) >= 2 and kind(strip(c[3][0])) == "var" and kind(strip(c[3][1])) == "var" and strip(c[3][1])[1] == iv[1]:
+                            uses.append(c)
+                return True
+            ast_walk(lp[4], vis2)
+            if not uses:
+                continue
+            same_type = [c for c in uses if strip(c[3][0])[3] == strip(qcall[3][0])[3]]
+            if not same_type:
+                continue
+            n += 1
+            key = "PAIR:%s:%s" % (f.name, bv[1])
+            wrong = [c for c in same_type if strip(c[3][0])[1] != qobj]
+            if wrong and len(wrong) == len(same_type):
+                c = wrong[0]
+                ctx.violated("PAIR", key, f.where(c[5]), "the loop is bounded by `%s`, which %s() reported for `%s`, but its body indexes `%s` with the loop variable (%s at line %d): "
+                             "items of `%s` are skipped or read past the end" % (bv[1], qcall[1], qobj, strip(c[3][0])[1], c[1], c[5], strip(c[3][0])[1]))
+            else:
+                ctx.holds("PAIR", key, f.where(qcall[5]), "bound `%s` comes from %s(%s, ..) and the body indexes `%s`" % (bv[1], qcall[1], qobj, qobj), nontrivial=True)
+    ctx.floor("PAIR", 5, n, "(index loops bounded by a queried count in the tools)")
+    return n
